@@ -28,6 +28,7 @@ SCALARS = ['double', 'float', 'int64', 'uint64', 'int32', 'fixed64', 'fixed32', 
 KEYS = [k for k in SCALARS if k not in ('double', 'float', 'bytes')]
 MUTANTS = ['double_underscore', 'never_suffix', 'suffix_json', 'drop_optional', 'drop_oneof', 'shift_number', 'swap_map',
            'enum_as_message', 'flatten_nested', 'enum_dense', 'drop_manifest_entry']
+BEHAVIOURAL = {'drop_optional', 'drop_oneof', 'shift_number', 'swap_map', 'enum_as_message'}
 RISKY_MSG = {'shadow': 'shadowed-nested-ref/message', 'eshadow': 'shadowed-nested-ref/enum'}
 
 
@@ -225,15 +226,19 @@ def build_api(subjects):
 
 
 # ---- large hand-laid shapes (code -> spec only: declarations + seeded random valuations) ------------------
-def big_subject(depth, file, seed_names):
+def big_subject(depth, file, seed_names, light=False):
     ctx = dict(depth=depth, file=file, kids=True)
     fs, n = [], [0]
 
     def add(name, kind, card='single', ref='', key='', group='', number=None):
         n[0] += 1
         fs.append(dict(name=W(name), number=number or n[0], kind=kind, card=card, group=group, ref=ref, key=key))
-    for k in SCALARS:
-        add('s_' + k, k); add('r_' + k, k, 'repeated'); add('o_' + k, k, 'optional')
+    for j, k in enumerate(SCALARS):
+        add('s_' + k, k)
+        if not light or j % 3 == 0:
+            add('r_' + k, k, 'repeated')
+        if not light or j % 3 == 1:
+            add('o_' + k, k, 'optional')
     mrefs = ['self', 'peer', 'before', 'after', 'kid', 'cousin', 'dep', 'depnested', 'wkt']
     erefs = ['etop', 'ekid', 'ecousin', 'edep', 'edepnested']
     if depth >= 2:
@@ -244,16 +249,25 @@ def big_subject(depth, file, seed_names):
         mrefs += ['xfile', 'xnested']; erefs += ['exfile', 'exnested']
     vals = [('string', ''), ('int32', ''), ('bytes', ''), ('double', ''), ('bool', '')] + [('message', r) for r in mrefs] + [('enum', r) for r in erefs]
     for j, k in enumerate(KEYS):
-        for q in range(3):
+        for q in range(1 if light else 3):
             vk, vr = vals[(3 * j + q) % len(vals)]
             add(f'm_{k}_{q}', vk, 'map', vr, k)
-    for r in mrefs:
-        add('msg_' + r, 'message', 'single', r); add('rmsg_' + r, 'message', 'repeated', r); add('omsg_' + r, 'message', 'optional', r)
-    for r in erefs:
-        add('en_' + r, 'enum', 'single', r); add('ren_' + r, 'enum', 'repeated', r); add('oen_' + r, 'enum', 'optional', r)
+    for j, r in enumerate(mrefs):
+        add('msg_' + r, 'message', 'single', r)
+        if not light or j % 2 == 0:
+            add('rmsg_' + r, 'message', 'repeated', r)
+        if not light or j % 2 == 1:
+            add('omsg_' + r, 'message', 'optional', r)
+    for j, r in enumerate(erefs):
+        add('en_' + r, 'enum', 'single', r)
+        if not light or j % 2 == 0:
+            add('ren_' + r, 'enum', 'repeated', r)
+        if not light or j % 2 == 1:
+            add('oen_' + r, 'enum', 'optional', r)
     add('c_str', 'string', group='choice'); add('c_msg', 'message', ref='self', group='choice'); add('c_enum', 'enum', ref='etop', group='choice')
     add('c_int', 'sint64', group='choice'); add('c_bool', 'bool', group='choice')
-    add('t_bytes', 'bytes', group='type'); add('t_dep', 'message', ref='dep', group='type')
+    g2 = 'variant' if 'type' in seed_names else 'type'          # a oneof may be named like a reserved word
+    add('t_bytes', 'bytes', group=g2); add('t_dep', 'message', ref='dep', group=g2)
     for w in seed_names:
         add(w, 'string')
     add('class', 'int32', 'optional'); add('from', 'message', 'single', 'before'); add('import', 'string', 'repeated')
@@ -276,10 +290,10 @@ def _run_pack(args):
         try:
             req, res = gen.generate_api(api, dict(transport=['grpc'], snippets=False), work)
             if res.error:
-                return dict(info=info, gen_error=res.error[-2000:])
+                return dict(info=info, gen_error=scrub(res.error[-2000:]))
         except Exception as e:  # the generator itself failed on this input
             import traceback
-            return dict(info=info, gen_error=traceback.format_exc()[-2000:])
+            return dict(info=info, gen_error=scrub(traceback.format_exc()[-2000:]))
         root = gen.materialise(res, os.path.join(work, 'out'))
         for f in req.proto_file:
             if f.name.startswith('other/'):
@@ -287,7 +301,9 @@ def _run_pack(args):
         ok, out, err = gen.run_driver('harness.drivers.types', root,
                                       dict(api=api, module=MODULE, pkg=PKG, subjects=payload_subjects, seed=seed), timeout=1700)
     if not ok:
-        return dict(info=info, driver_error=err)
+        return dict(info=info, driver_error=scrub(err))
+    if out.get('import_error'):
+        out['import_error'] = scrub(out['import_error'])
     return dict(info=info, out=out)
 
 
@@ -299,6 +315,11 @@ def failure_of(r):
     if r['out'].get('import_error'):
         return 'import', r['out']['import_error']
     return None
+
+
+def scrub(text):
+    """error texts without the scratch directory names (replay files are deterministic)."""
+    return re.sub(r'/tmp/[A-Za-z0-9_.-]+/', '<scratch>/', text)
 
 
 def error_class(text):
@@ -337,8 +358,11 @@ def main(chk, args):
     jobs.append(('Types liveness (1 field)', pool.submit(tlc.run, 'Types', cfg_text('Types.live.cfg'), deadlock=False,
                                                          timeout=1500, workers=4)))
     muts = MUTANTS if not quick else [MUTANTS[(chk.seed + k) % len(MUTANTS)] for k in (0, 4, 8)]
-    mjobs = [(m, pool.submit(tlc.run, 'Types', cfg_text('Types.mutant.cfg', mutant=m), deadlock=False, timeout=900, workers=2))
-             for m in muts]
+    # the mutants that change what is on the wire must be caught by the behavioural invariants (round trip, presence,
+    # oneof exclusivity), so the declaration-equality invariant is switched off for them
+    mjobs = [(m, pool.submit(tlc.run, 'Types', cfg_text('Types.mutant.cfg', mutant=m).replace(
+                  'INVARIANT Inv_SameFields\n', '' if m in BEHAVIOURAL else 'INVARIANT Inv_SameFields\n'),
+              deadlock=False, timeout=900, workers=2)) for m in muts]
     # 2. cases -------------------------------------------------------------------------------------------------
     if quick:   # seeded sample of the one-field space (thorough: the whole space)
         e_one = pool.submit(tlc.emit_cases, 'Types', cfg_text('Types.emit.one.cfg'), deadlock=False, timeout=1500,
@@ -386,8 +410,11 @@ def main(chk, args):
             if k not in by_key:
                 by_key[k] = dict(kind='file', tops=sorted(c['tops']), manifest=sorted(c['manifest']))
                 subjects.append(by_key[k])
-    bigs = [big_subject(1, 'b', ['type', 'format', 'any', 'max', 'self', 'next', 'list', 'display_name', 'ignore_unknown_fields']),
-            big_subject(4, 'a', ['all', 'license', 'object', 'hash', 'cls', 'zip', 'item_v2'])]
+    # (generation time explodes for large messages that refer to their enclosing messages at depth >= 3, see report)
+    bigs = [big_subject(1, 'b', ['type', 'format', 'any', 'max', 'self', 'next', 'list', 'display_name', 'ignore_unknown_fields'], light=quick),
+            big_subject(2, 'a', ['all', 'license', 'object', 'hash', 'cls', 'zip', 'item_v2'], light=True)]
+    if not quick:
+        bigs.append(big_subject(1, 'a', ['range', 'open', 'dir', 'help', 'min'], light=False))
     for b in bigs:
         b['nrandom'] = 6 if quick else 40
         b['rlen'] = 30 if quick else 40
@@ -417,6 +444,7 @@ def main(chk, args):
     rnd.shuffle(rest)
     packs = [rest[k::npacks] for k in range(npacks)]
     packs[0] = files + packs[0]
+    packs = [[b] for b in bigs] + [[s for s in p if not s.get('big')] for p in packs]
     packs = [p for p in packs if p]
     probes = [(cls, ss[0]) for cls, ss in sorted(risky.items())]
     results = []
@@ -442,7 +470,8 @@ def main(chk, args):
                     late.append(ex.submit(_run_pack, (risky[cls][1:], chk.seed, nrandom, rlen)))
                     late[-1].subjects = risky[cls][1:]
         todo = [(p, f.result()) for p, f in zip(packs, futs)] + [(f.subjects, f.result()) for f in late]
-        # bisect packs that failed as a whole
+        # bisect packs that failed as a whole (down to single shapes for the first few, the rest are reported per pack)
+        culprits = 0
         while todo:
             p, r = todo.pop()
             fl = failure_of(r)
@@ -451,19 +480,31 @@ def main(chk, args):
             kind, text = fl
             if kind == 'driver':
                 raise core.MachineryError('types driver failed:\n' + text)
+            last = text.strip().splitlines()[-1][:300]
             if len(p) == 1:
                 s = p[0]
+                culprits += 1
                 cl = '+'.join(sorted(set(fclass(dict(f, reftok=f['ref']), reserved) for f in s.get('fields', [])))) or s['kind']
                 chk.case(f'{kind}:{cl}')
-                chk.violation(f'{kind}:{error_class(text)}:{cl}', f'the package emitted for this single shape fails ({kind}): '
-                              f'{text.strip().splitlines()[-1][:300]}', dict(subject={k: v for k, v in s.items() if k != 'scripts'},
-                                                                            error=text[-1500:], api=build_api([s])[0]))
+                chk.violation(f'{kind}:{error_class(text)}:{cl}', f'the package emitted for this single shape fails ({kind}): {last}',
+                              dict(subject={k: v for k, v in s.items() if k != 'scripts'}, error=text[-1500:], api=build_api([s])[0]))
                 continue
-            if len(chk.violations) > 12:
-                raise core.MachineryError('too many failing packs; last error:\n' + text[-1500:])
+            if culprits >= 3:
+                chk.case(f'{kind}:pack')
+                chk.violation(f'{kind}:{error_class(text)}:pack', f'a package of {len(p)} shapes fails ({kind}), not bisected: {last}',
+                              dict(error=text[-1500:], shapes=len(p)))
+                continue
             h = len(p) // 2
             fa, fb = ex.submit(_run_pack, (p[:h], chk.seed, nrandom, rlen)), ex.submit(_run_pack, (p[h:], chk.seed, nrandom, rlen))
-            todo += [(p[:h], fa.result()), (p[h:], fb.result())]
+            ra, rb = fa.result(), fb.result()
+            if failure_of(ra) and failure_of(rb) and len(p) > 8:
+                # both halves fail: a defect that does not depend on one shape; follow one half only
+                todo.append((p[:h], ra)); culprits_other = failure_of(rb)
+                chk.violation(f'{culprits_other[0]}:{error_class(culprits_other[1])}:pack',
+                              f'a package of {len(p) - h} shapes fails ({culprits_other[0]}), not bisected: '
+                              f'{culprits_other[1].strip().splitlines()[-1][:300]}', dict(error=culprits_other[1][-1500:], shapes=len(p) - h))
+            else:
+                todo += [(p[:h], ra), (p[h:], rb)]
 
     # 3. spec -> code comparison ----------------------------------------------------------------------------------
     all_traces = []
